@@ -83,8 +83,52 @@ struct Result
     int op_index;
 };
 
-// run one case, optionally in a forked child so that a crash becomes an ordinary failure
+static uint64_t g_fault_runs = 0;
+static uint64_t g_fault_cases_multi = 0;
+static bool g_last_fault_nontrivial = false;
+
+static Result run_case_plain(const Program& p, Stats& st, unsigned guards, bool isolate);
+
+// C17: counting run, then one forked run per allocation of the target (last) op with that allocation failing
+static Result run_fault_case(const Program& p, Stats& st, unsigned guards, bool isolate)
+{
+    ConfigEntry& cfg = the_config();
+    g_fault_k = 0;
+    g_last_fault_nontrivial = false;
+    Result r0 = run_case_plain(p, st, guards, isolate);
+    if (!r0.ok) return r0;
+    uint64_t m = st.last_op_allocs;
+    if (isolate)
+    {
+        // the child cannot report the count through Stats: recount in-process is unsafe, so probe with increasing k
+        m = 8;
+    }
+    if (m >= 2 || (cfg.caps & CAP_TRACKED)) g_last_fault_nontrivial = m >= 1;
+    if (m >= 2) ++g_fault_cases_multi;
+    for (uint64_t k = 1; k <= m; ++k)
+    {
+        g_fault_k = static_cast<int>(k);
+        Stats scratch;
+        Result r = run_case_plain(p, scratch, guards, true);
+        g_fault_k = 0;
+        ++g_fault_runs;
+        if (!r.ok)
+        {
+            r.msg = "with allocation #" + std::to_string(k) + " of the last operation failing: " + r.msg;
+            return r;
+        }
+    }
+    return r0;
+}
+
 static Result run_case(const Program& p, Stats& st, unsigned guards, bool isolate)
+{
+    if (g_prop == 17 && !p.ops.empty()) return run_fault_case(p, st, guards, isolate);
+    return run_case_plain(p, st, guards, isolate);
+}
+
+// run one case, optionally in a forked child so that a crash becomes an ordinary failure
+static Result run_case_plain(const Program& p, Stats& st, unsigned guards, bool isolate)
 {
     ConfigEntry& cfg = the_config();
     if (!isolate)
@@ -102,6 +146,7 @@ static Result run_case(const Program& p, Stats& st, unsigned guards, bool isolat
     {
         close(fds[0]);
         g_crash_path.clear();
+        alarm(60);  // a runaway case (garbage size, endless loop) must not stall the campaign: SIGALRM ends the child
         Stats cst;
         Verdict v = cfg.run(g_prop, p, cst, guards);
         std::string out = v.ok ? "OK" : ("FAIL\n" + v.code + "\n" + std::to_string(v.op_index) + "\n" + v.msg);
@@ -220,6 +265,30 @@ int main(int argc, char** argv)
         },
         fieldGen(65536), fieldGen(100), newGen, rc::gen::container<std::vector<Op>>(opGen));
 
+    // C17: the target operation is appended as the last op
+    const auto targets = fault_targets(cfg.caps);
+    unsigned ttotal = 0;
+    for (auto& [w, k] : targets) ttotal += w;
+    auto targetKindGen = rc::gen::map(rc::gen::resize(100, rc::gen::inRange<unsigned>(0, ttotal)),
+                                      [targets](unsigned x)
+                                      {
+                                          for (auto& [w, k] : targets)
+                                          {
+                                              if (x < w) return k;
+                                              x -= w;
+                                          }
+                                          return targets.back().second;
+                                      });
+    auto targetGen = rc::gen::build<Op>(rc::gen::set(&Op::kind, targetKindGen), rc::gen::set(&Op::a, fieldGen(12)), rc::gen::set(&Op::b, fieldGen(64)),
+                                        rc::gen::set(&Op::c, fieldGen(65536)), rc::gen::set(&Op::d, fieldGen(4096)));
+    auto faultProgGen = rc::gen::apply(
+        [](Program p, Op target)
+        {
+            p.ops.push_back(target);
+            return p;
+        },
+        progGen, targetGen);
+
     Stats st;
     std::unordered_set<uint64_t> distinct_nontrivial;
     std::vector<std::string> samples;
@@ -235,7 +304,7 @@ int main(int argc, char** argv)
     const bool ok = rc::check(
         [&]
         {
-            const Program p = *progGen;
+            const Program p = g_prop == 17 ? *faultProgGen : *progGen;
             st.nontrivial = false;
             ++evaluations;
             Result r = run_case(p, st, guards, isolate);
@@ -245,6 +314,7 @@ int main(int argc, char** argv)
                 last_fail_res = r;
                 RC_FAIL(r.code + ": " + r.msg);
             }
+            if (g_prop == 17) st.nontrivial = g_last_fault_nontrivial;
             if (st.nontrivial)
             {
                 if (distinct_nontrivial.insert(hash_program(p, cfg_hash)).second && samples.size() < 3 && p.ops.size() <= 24) samples.push_back(to_line(p));
@@ -264,6 +334,8 @@ int main(int argc, char** argv)
         o << "\"ops_skipped\": " << st.ops_skipped << ",\n";
         o << "\"ops_repaired\": " << st.ops_repaired << ",\n";
         o << "\"guarded\": " << st.guarded << ",\n";
+        o << "\"fault_runs\": " << g_fault_runs << ",\n";
+        o << "\"fault_cases_with_two_or_more_allocations\": " << g_fault_cases_multi << ",\n";
         o << "\"oracle_checks\": " << st.checks << ",\n";
         o << "\"kinds\": {";
         bool first = true;
